@@ -53,6 +53,7 @@ T_ASSUME = [
 CHECKS = {
     'C01': {
         'units': lambda t: [u_core(t)] + ([u_core4(t)] if t == 'thorough' else []),
+        'extra': lambda pid, tier, agg, deadline: __import__('conf_check').run(pid, tier, agg, deadline),
         'rule': 'all canonical tables (rules numbered by first mention, all reachable, cyclic ones included) of <=3 named rules over '
                 'seq sor seq3 sor3 star plus opt at not_at (+2-argument star/plus/opt/at/not_at) and any one not_one range string eof success failure, '
                 'x all inputs over {a,b,c} of length <=3 (thorough <=4), x 16 configurations (4 void-action attachments x apply_mode x top-level rewind_mode); '
